@@ -129,6 +129,15 @@ fn same_float(a: f64, b: f64) -> bool {
     (a.is_nan() && b.is_nan()) || a.to_bits() == b.to_bits()
 }
 
+/// Equality of outcomes with floats compared by bit pattern (NaNs alike): `-0.0` is not `0.0`, which
+/// both `f64 ==` and `OrderedFloat` would let pass.
+fn same_got(a: &Got, b: &Got) -> bool {
+    match (a, b) {
+        (Got::Float(x), Got::Float(y)) => same_float(*x, *y),
+        _ => a == b,
+    }
+}
+
 fn float_of_untagged(text: &str, c: &Core) -> Option<f64> {
     match c {
         Core::Float => text.parse::<f64>().ok(),
@@ -234,7 +243,7 @@ pub fn check_api(text: &str, style: ScalarStyle, tag: TagK) -> CheckResult {
     let o = ScalarOwned::parse_from_cow_and_metadata(Cow::Owned(text.to_string()), style, t.as_ref());
     let got_o = got_of_scalar(o.as_ref().map(|s| s.as_scalar()).as_ref());
     ensure!(
-        got_o == got || matches!((&got_o, &got), (Got::Float(a), Got::Float(b)) if same_float(*a, *b)),
+        same_got(&got_o, &got),
         "borrowed-vs-owned",
         "text {text:?} style {} tag {}: Scalar gives {got:?}, ScalarOwned gives {got_o:?}",
         style_name(style),
@@ -242,13 +251,13 @@ pub fn check_api(text: &str, style: ScalarStyle, tag: TagK) -> CheckResult {
     );
     if tag == TagK::None && style == ScalarStyle::Plain {
         let p = got_of_scalar(Some(&Scalar::parse_from_cow(Cow::Borrowed(text))));
-        ensure!(p == got || matches!((&p, &got), (Got::Float(a), Got::Float(b)) if same_float(*a, *b)), "parse_from_cow-differs", "text {text:?}: parse_from_cow gives {p:?}, parse_from_cow_and_metadata gives {got:?}");
+        ensure!(same_got(&p, &got), "parse_from_cow-differs", "text {text:?}: parse_from_cow gives {p:?}, parse_from_cow_and_metadata gives {got:?}");
         let po = got_of_scalar(Some(&ScalarOwned::parse_from_cow(Cow::Borrowed(text)).as_scalar()));
-        ensure!(po == got || matches!((&po, &got), (Got::Float(a), Got::Float(b)) if same_float(*a, *b)), "borrowed-vs-owned", "text {text:?}: ScalarOwned::parse_from_cow gives {po:?}, Scalar gives {got:?}");
+        ensure!(same_got(&po, &got), "borrowed-vs-owned", "text {text:?}: ScalarOwned::parse_from_cow gives {po:?}, Scalar gives {got:?}");
         // round trip borrowed -> owned -> borrowed
         if let Some(s) = &b {
             let back = s.clone().into_owned();
-            ensure!(back.as_scalar() == *s, "into_owned-roundtrip", "text {text:?}: into_owned/as_scalar changed {s:?}");
+            ensure!(same_got(&got_of_scalar(Some(&back.as_scalar())), &got_of_scalar(Some(s))), "into_owned-roundtrip", "text {text:?}: into_owned/as_scalar changed {s:?}");
         }
     }
     Ok(())
@@ -337,7 +346,7 @@ pub fn check_doc(text: &str, style: ScalarStyle, tag: TagK) -> CheckResult {
         other => Got::Weird(format!("{other:?}")),
     };
     ensure!(
-        og == got || matches!((&og, &got), (Got::Float(a), Got::Float(b)) if same_float(*a, *b)),
+        same_got(&og, &got),
         "borrowed-vs-owned",
         "document {doc:?}: Yaml gives {got:?}, YamlOwned gives {og:?}"
     );
